@@ -340,7 +340,7 @@ class WModel(_WCommon.UiModelBase):
         st = [WSym(f"s{i}", "STATE") for i in range(v.n_state)]
         ct = [WSym(f"u{i}", "CONTROL") for i in range(v.n_control)] if v.control else []
         cal = [WSym(f"k{i}", "CALIB") for i in range(v.n_calib)] if v.calibration else []
-        self.dt = WSym("dt", "DT")
+        self.dt = WSym("tau_step", "DT")         # deliberately not spelled like the C++ parameter: an unsubstituted time step is an undeclared identifier
         self.state, self.control, self.calibration = set(st), set(ct), set(cal)
         self.state_model = {s_: WExpr(st + cal + ct + [self.dt]) for s_ in st}
         self._st, self._ct, self._cal = st, ct, cal
@@ -452,7 +452,7 @@ class Witness:
         out: List[str] = []
         for n in nodes:
             if isinstance(n, minieval.Inst):
-                for line in n.compile(cs_cls(indent=0)):
+                for line in minieval.consume(n.compile(cs_cls(indent=0))):
                     if not isinstance(line, str):
                         raise core.AnalysisError(f"ast_tools printer yielded a non-string for {n.kind}: {line!r}")
                     out.extend(line.split("\n"))
